@@ -103,10 +103,25 @@ func (o *oraclePartitioner) MessageRequiresConsistency(m *sarama.ProducerMessage
 func (o *oraclePartitioner) Partition(m *sarama.ProducerMessage, n int32) (int32, error) {
 	choice, err := o.inner.Partition(m, n)
 	if mi, ok := m.Metadata.(*msgInfo); ok {
-		mi.pcalls = append(mi.pcalls, pcall{n: n, choice: choice, err: err, consistent: o.MessageRequiresConsistency(m), view: o.ps.cl.view})
+		mi.pcalls = append(mi.pcalls, pcall{n: n, choice: choice, err: err, consistent: o.mustBeConsistent(m), view: o.ps.cl.view})
 	}
 	o.ps.checkPartitionerContract(o, m, n, choice, err)
 	return choice, err
+}
+
+// mustBeConsistent: what the contract says, not what the partitioner under test answers - keyed messages (any
+// non-nil key, the empty one included) of the hash partitioners and every message of the manual partitioner are
+// offered all partitions; round-robin and random only writable ones.
+func (o *oraclePartitioner) mustBeConsistent(m *sarama.ProducerMessage) bool {
+	switch o.kind {
+	case "hash", "", "refhash", "customhash", "custom-absfirst", "custom-hashfn", "custom-fallback":
+		return m.Key != nil
+	case "manual":
+		return true
+	case "roundrobin", "random":
+		return false
+	}
+	return o.MessageRequiresConsistency(m)
 }
 
 // badPartitioner returns out-of-range values or errors on designated messages.
